@@ -218,6 +218,22 @@ fn files(ctx: &Ctx) -> Vec<File> {
         fm.frags.truncate(1);
         v.push(File { name: "large-fragment-samples".into(), full: build(&fm).bytes, init: None, from: 0 });
     }
+    // fragmented, with no duration signalled at any level (trex default 0, no tfhd default, no
+    // per-sample durations) but a media duration in mdhd; two tracks in separate moofs
+    {
+        let mut fm = adv::kitchen_sink_frag(1);
+        fm.frag_mdhd_dur = 360;
+        for t in fm.tracks.iter_mut() {
+            t.trex_dur = 0;
+        }
+        for f in fm.frags.iter_mut() {
+            for tr in f.trafs.iter_mut() {
+                tr.tfhd_dur = None;
+                tr.trun_dur = false;
+            }
+        }
+        v.push(File { name: "sinkfrag-no-duration-signalling".into(), full: build(&fm).bytes, init: None, from: 0 });
+    }
     // movie header last, each moov leaf box in turn as the last box of the file
     for i in 0..3 {
         let mut m = adv::kitchen_sink(i);
